@@ -48,6 +48,10 @@ package index
 //@   ensures def: (err == nil) == byDg(ii, digestof(mhof(c)))
 
 //@ func (*InsertionIndex).Load
+//@   let rec0, rderr := call[newRecordDigest#0]
+//@   call[fmt.Errorf#0] assert refuses_only_an_undecodable_record [C03,C11]: rderr != nil
+//@   call[fmt.Errorf#1] assert refuses_only_a_record_without_a_digest [C03,C11]: rderr == nil && rec.digest == nil
+//@   call[LLRB.InsertNoReplace#0] assert inserts_the_record_just_decoded [C03,C11]: rderr == nil
 //@   check every_record_is_inserted [C03,C11]: err == nil ==> rangeindex == len(rs)
 //@   call[LLRB.InsertNoReplace#0] assert keeps_duplicates [C03,C11]: true
 //@   loop[0] invariant no_error [C03]: true
@@ -122,6 +126,9 @@ package index
 //@   call[multihash.Decode#0] assert decodes [C09]: validmh(bytesval(arg0))
 
 //@ func (*singleWidthIndex).Unmarshal
+//@   let werr := call[binary.Read#0]
+//@   let lerr := call[binary.Read#1]
+//@   ensures a_truncated_bucket_header_is_an_unexpected_eof [C02,C11]: (werr == io.EOF ==> err == io.ErrUnexpectedEOF) && (werr == nil && executed("binary.Read#1") && lerr == io.EOF ==> err == io.ErrUnexpectedEOF)
 //@   modifies pos(r), s.width, s.len, s.index
 //@   call[binary.Read#0] assert width_field [C11]: binsize(arg2) == 4
 //@   call[binary.Read#1] assert length_field [C11]: binsize(arg2) == 8
@@ -163,6 +170,18 @@ package index
 //@   end
 
 //@ func (*multiWidthIndex).Unmarshal
+//@   let rerr := call[binary.Read#0]
+//@   ghost at entry: mark(m) := 0
+//@   ghost after call[singleWidthIndex.Unmarshal#0]: mark(m) := mark(m) + 1
+//@   loop[0] invariant one_bucket_per_iteration [C11]: mark(m) == i
+//@   loop[0] invariant within_the_declared_count [C11]: 0 <= i && i <= l
+//@   check reads_exactly_the_declared_buckets [C11]: err == nil ==> mark(m) == l
+//@   call[Seeker.Seek#0] assert asks_for_the_current_position [C11]: arg1 == 0 && arg2 == 1
+//@   call[Seeker.Seek#1] assert asks_for_the_current_position [C11]: arg1 == 0 && arg2 == 1
+//@   call[errors.New#0] assert refuses_only_a_negative_count [C09,C11]: l < 0
+//@   call[errors.New#1] assert refuses_only_an_overflowing_total [C09,C11]: sum < oldSum
+//@   call[singleWidthIndex.Unmarshal#0] assert reads_the_next_bucket_from_the_same_stream [C11]: ref(arg1) == ref(r) && rerr == nil && l >= 0
+//@   ensures a_missing_count_is_an_unexpected_eof [C02,C11]: rerr == io.EOF ==> err == io.ErrUnexpectedEOF
 //@   check reads_every_declared_bucket [C11]: err == nil ==> i >= l
 //@   call[mapupdate#0] assert stores_wellformed_bucket [C09,C11]: 8 <= value.width && value.width <= 33554432 && value.len * value.width <= len(value.index) && key == value.width
 
@@ -225,6 +244,10 @@ package index
 //@   end
 
 //@ func (*InsertionIndex).Flatten
+//@   let si, nerr := call[New#0]
+//@   call[New#0] assert requested_codec [C05,C11]: arg0 == codec
+//@   call[Index.Load#0] assert into_the_new_index [C05,C11]: ref(arg0) == ref(si)
+//@   ensures the_loaded_index [C05,C11]: err == nil ==> ref(result0) == ref(si) && nerr == nil
 //@   call[Index.Load#0] assert all_records_at_once [C05,C11]: ref(arg1) == ref(rcrds) && len(rcrds) == nrecords
 //@   let nrecords := call[LLRB.Len#0]
 //@   alloc[0] bounded_by 281474976710656
@@ -254,6 +277,8 @@ package index
 //@   ensures consumed [C11]: err == nil ==> pos(r) == old(pos(r)) + vsize(result0)
 
 //@ func (*multiWidthCodedIndex).Unmarshal
+//@   let rerr := call[binary.Read#0]
+//@   ensures a_missing_code_is_an_unexpected_eof [C02,C11]: rerr == io.EOF ==> err == io.ErrUnexpectedEOF
 //@   call[binary.Read#0] assert code_field [C11]: binsize(arg2) == 8
 //@   call[multiWidthIndex.Unmarshal#0] assert same_reader [C11]: ref(arg1) == ref(r)
 
@@ -261,6 +286,10 @@ package index
 // own digest and offset; each list is sorted before it is laid out; the bucket stored under width+8 has that width, the list's length and that compact form.
 
 //@ func (*multiWidthIndex).Load
+//@   let prev, pok := call[maplookup#0]
+//@   call[append#0] assert extends_the_list_of_that_digest_length [C03,C11]: pok ==> ref(arg0) == ref(prev)
+//@   call[mapupdate#0] assert a_new_digest_length_starts_with_an_empty_list [C03,C11]: len(value) == 0 && !pok
+//@   call[mapupdate#2] assert bucket_width_is_digest_length_plus_8 [C03,C05,C11]: value.width == wrap_u32(wrap_s64(width + 8)) && rcrdWdth == wrap_s64(width + 8)
 //@   check every_item_is_grouped [C03,C11]: err == nil ==> rangeindex == len(items)
 //@   let dec, derr := call[multihash.Decode#0]
 //@   call[multihash.Decode#0] assert own_hash [C03,C11]: true
@@ -300,9 +329,17 @@ package index
 //@   call[mapupdate#0] assert filed_under_own_code [C03,C11]: key == mwci.code && ref(value) == ref(mwci)
 
 //@ func (*MultihashIndexSorted).get
+//@   let cidx, cok := call[maplookup#0]
+//@   ensures the_bucket_of_that_code_or_not_found [C03,C07]: (cok ==> result0 == cidx && err == nil) && (!cok ==> result0 == nil && err == ErrNotFound)
 //@   call[maplookup#0] assert bucket_of_the_keys_code [C03,C07]: key == dmh.Code
 
 //@ func (*MultihashIndexSorted).Load
+//@   let prev, pok := call[maplookup#0]
+//@   call[append#0] assert extends_the_list_of_that_code [C03,C11]: pok ==> ref(arg0) == ref(prev)
+//@   call[mapupdate#0] assert a_new_code_starts_with_an_empty_list [C03,C11]: len(value) == 0 && !pok
+//@   ghost before call[multiWidthIndex.Load#0]: mark(m) := 0
+//@   ghost after call[MultihashIndexSorted.put#0]: mark(m) := 1
+//@   check every_loaded_group_is_stored [C03,C11]: executed("multiWidthIndex.Load#0") && err == nil ==> mark(m) == 1
 //@   check every_record_is_grouped [C03,C11]: err == nil ==> rangeindex == len(records)
 //@   let dmh, derr := call[multihash.Decode#0]
 //@   call[append#0] assert record_kept_whole [C03,C11]: len(arg1) == 1 && arg1[0] == record
@@ -318,18 +355,24 @@ package index
 //@   ensures unknown_code_is_not_found [C03,C07]: derr == nil && gerr != nil ==> err == gerr
 
 //@ func (*multiWidthIndex).GetAll
+//@   let bkt, bok := call[maplookup#0]
+//@   let gerr := call[singleWidthIndex.getAll#0]
+//@   ensures the_bucket_of_that_width_decides [C03,C07]: derr == nil ==> (bok ==> err == gerr) && (!bok ==> err == ErrNotFound)
 //@   let d, derr := call[multihash.Decode#0]
 //@   call[maplookup#0] assert bucket_of_the_keys_digest_width [C03,C07]: key == wrap_u32(len(d.Digest) + 8)
 //@   call[maplookup#0] assume stored_buckets_wellformed: 8 <= value.width && value.width <= 33554432 && value.len * value.width <= len(value.index) && value.len <= 281474976710656
 //@   call[singleWidthIndex.getAll#0] assert the_keys_digest_and_callback [C03,C07]: ref(arg1) == ref(d.Digest) && arg2 == fn
 
 //@ func (*InsertionIndex).Marshal
+//@   check returns_what_the_walk_recorded [C11,C16]: executed("LLRB.AscendGreaterOrEqual#0") ==> err == cur(err__2)
 //@   implements (github.com/ipld/go-car/v2/index.Index).Marshal
 //@   modifies wn(w)
 //@   call[binary.Write#0] assert count_field [C11]: binsize(arg2) == 8
 //@   closure[0]
 //@     assume tree_holds_record_digests: typeis(i, "v2/index.recordDigest")
 //@     assume own_buffer: ref(w) != ref(&buf)
+//@     call[cbor.Encode#0] assert into_the_emptied_buffer [C11]: ref(arg0) == ref(&buf) && wn(&buf) == 0
+//@     call[Writer.Write#0] assert hands_over_this_records_encoding [C11]: ref(arg0) == ref(w) && len(arg1) == wn(&buf)
 //@     invariant counted [C11]: wn(w) - atcall(wn(w)) < 4611686018427387904 ==> l == atcall(l) + (wn(w) - atcall(wn(w)))
 //@     invariant mono [C11,C16]: wn(w) >= atcall(wn(w))
 //@     invariant small_start [C11]: 0 <= atcall(l) && atcall(l) <= 16
@@ -340,12 +383,19 @@ package index
 // iteration yields each stored record's own multihash / CID with its own offset and stops at the first error.
 
 //@ func (*InsertionIndex).Unmarshal
+//@   ghost at entry: mark(ii) := 0
+//@   ghost after call[LLRB.InsertNoReplace#0]: mark(ii) := mark(ii) + 1
+//@   loop[0] invariant one_record_per_iteration [C11]: mark(ii) == i
+//@   loop[0] invariant within_the_declared_count [C11]: 0 <= i && (length >= 0 ==> i <= length)
+//@   check reads_exactly_the_declared_records [C11]: err == nil && length >= 0 ==> mark(ii) == length
+//@   call[fmt.Errorf#0] assert refuses_only_an_undecodable_record [C11]: rderr != nil
 //@   let rd, rderr := call[newRecordDigest#0]
 //@   call[binary.Read#0] assert count_field [C11]: binsize(arg2) == 8
 //@   call[LLRB.InsertNoReplace#0] assert inserts_the_decoded_record [C11]: rderr == nil
 //@   loop[0] step one_record_per_iteration [C11]: i == athead(0, i) + 1
 
 //@ func (*InsertionIndex).ForEach
+//@   check returns_what_the_walk_recorded [C11,C16]: err == cur(err)
 //@   closure[0]
 //@     assume tree_holds_record_digests: typeis(i, "v2/index.recordDigest")
 //@     let ferr := call[dynamic#0]
@@ -354,6 +404,7 @@ package index
 //@   end
 
 //@ func (*InsertionIndex).ForEachCid
+//@   check returns_what_the_walk_recorded [C07,C11]: err == cur(err)
 //@   closure[0]
 //@     assume tree_holds_record_digests: typeis(i, "v2/index.recordDigest")
 //@     let ferr := call[dynamic#0]
@@ -379,6 +430,17 @@ package index
 //@   ensures kind [C05,C11]: result != nil
 
 //@ func (*MultihashIndexSorted).Unmarshal
+//@   let rerr := call[binary.Read#0]
+//@   ghost at entry: mark2(m) := 0
+//@   ghost after call[multiWidthCodedIndex.Unmarshal#0]: mark2(m) := mark2(m) + 1
+//@   loop[0] invariant one_bucket_per_iteration [C11]: mark2(m) == i
+//@   loop[0] invariant within_the_declared_count [C11]: 0 <= i && i <= l
+//@   check reads_exactly_the_declared_buckets [C11]: err == nil ==> mark2(m) == l
+//@   call[Seeker.Seek#0] assert asks_for_the_current_position [C11]: arg1 == 0 && arg2 == 1
+//@   call[Seeker.Seek#1] assert asks_for_the_current_position [C11]: arg1 == 0 && arg2 == 1
+//@   call[errors.New#0] assert refuses_only_a_negative_count [C09,C11]: l < 0
+//@   call[errors.New#1] assert refuses_only_an_overflowing_total [C09,C11]: sum < oldSum
+//@   ensures a_missing_count_is_an_unexpected_eof [C02,C11]: rerr == io.EOF ==> err == io.ErrUnexpectedEOF
 //@   check reads_every_declared_bucket [C11]: err == nil ==> i >= l
 //@   ghost after call[newMultiWidthCodedIndex#0]: mark(m) := i
 //@   call[multiWidthCodedIndex.Unmarshal#0] assert reads_into_the_new_bucket [C11]: ref(arg0) == ref(mwci) && ref(arg1) == ref(r)
@@ -398,3 +460,6 @@ package index
 
 //@ func (recordSet).Len
 //@   ensures def [C11]: result == len(r)
+
+//@ func newMultiWidthCodedIndex
+//@   ensures fresh_empty_bucket [C11]: result != nil && freshobj(result)
